@@ -19,6 +19,11 @@ type Mutex struct {
 	real    sync.Mutex
 	locked  bool
 	waiters []*simrt.G
+	// As sync.Mutex does in its starvation mode, a goroutine that was woken several times and
+	// found the mutex taken again is handed the mutex directly by the next Unlock: starving
+	// lists such goroutines, handoff is the one the locked mutex now belongs to.
+	starving []*simrt.G
+	handoff  *simrt.G
 }
 
 func (m *Mutex) Lock() {
@@ -28,9 +33,23 @@ func (m *Mutex) Lock() {
 		return
 	}
 	s.Yield("lock", fmt.Sprintf("m%d", s.ObjID(m)))
-	for m.locked {
-		m.waiters = append(m.waiters, s.Cur())
+	self := s.Cur()
+	for lost := 0; m.locked; lost++ {
+		if m.handoff == self {
+			m.handoff = nil // handed over by Unlock: still locked, now ours
+			return
+		}
+		if lost == 3 {
+			m.starving = append(m.starving, self)
+		}
+		m.waiters = append(m.waiters, self)
 		s.Block(fmt.Sprintf("mutex m%d", s.ObjID(m)))
+	}
+	for i, g := range m.starving {
+		if g == self {
+			m.starving = append(m.starving[:i:i], m.starving[i+1:]...)
+			break
+		}
 	}
 	m.locked = true
 }
@@ -61,6 +80,20 @@ func (m *Mutex) Unlock() {
 	}
 	if !m.locked {
 		s.Fail(simrt.FailFatal, "sync: unlock of unlocked mutex")
+	}
+	if len(m.starving) > 0 {
+		// starvation mode: the mutex goes straight to the goroutine that has waited longest
+		g := m.starving[0]
+		m.starving = m.starving[1:]
+		m.handoff = g
+		for i, w := range m.waiters {
+			if w == g {
+				m.waiters = append(m.waiters[:i:i], m.waiters[i+1:]...)
+				break
+			}
+		}
+		s.Ready(g)
+		return
 	}
 	m.locked = false
 	for _, g := range m.waiters {
